@@ -405,17 +405,19 @@ def cart2geodetic(x, y, z, ellipsoid=None):
 
     lon = np.rad2deg(np.arctan2(y, x))
     B0 = np.arctan2(z, np.hypot(x, y))
-    B = np.ones(B0.shape)
     e2 = ellipsoid[1]**2
     if e2 == 0.0:
         h, lat, lon = cart2geocentric(x, y, z)
         h -= ellipsoid[0]
     else:
-        while (np.any(np.abs(B - B0) > 1e-10)):
+        # Iterate at least once, whatever the first guess is.
+        while True:
             N = ellipsoid[0] / np.sqrt(1 - e2 * np.sin(B0)**2)
             h = np.hypot(x, y) / np.cos(B0) - N
             B = B0.copy()
             B0 = np.arctan(z/np.hypot(x, y) * ((1-e2*N/(N+h))**(-1)))
+            if not np.any(np.abs(B - B0) > 1e-10):
+                break
 
         lat = np.rad2deg(B)
 
